@@ -1,0 +1,36 @@
+//go:build verif
+
+package types
+
+// Verification hooks for the multiproof code (property C18 of the /verif
+// framework). This file only re-exports unexported functions; it adds no
+// behaviour and is compiled only with `-tags verif`.
+
+// VerifMultiproofSize exports multiproofSize.
+func VerifMultiproofSize(txns []V2Transaction) int { return multiproofSize(txns) }
+
+// VerifComputeMultiproof exports computeMultiproof.
+func VerifComputeMultiproof(txns []V2Transaction) []Hash256 { return computeMultiproof(txns) }
+
+// VerifExpandMultiproof exports expandMultiproof. The Merkle proofs of the
+// transactions' elements (which must already have their final lengths) are
+// rewritten in place.
+func VerifExpandMultiproof(txns []V2Transaction, proof []Hash256) { expandMultiproof(txns, proof) }
+
+// A VerifElementLeaf is the exported mirror of the multiproof code's
+// elementLeaf: a pointer to the element's StateElement and its element hash.
+type VerifElementLeaf struct {
+	SE          *StateElement
+	ElementHash Hash256
+}
+
+// VerifForEachElementLeaf exports forEachElementLeaf: the non-ephemeral element
+// leaves of txns, in the order in which the multiproof code visits them.
+func VerifForEachElementLeaf(txns []V2Transaction, fn func(l VerifElementLeaf)) {
+	forEachElementLeaf(txns, func(l elementLeaf) { fn(VerifElementLeaf{l.StateElement, l.ElementHash}) })
+}
+
+// VerifMultiproofLeafHash exports elementLeaf.hash (spent flag always clear).
+func VerifMultiproofLeafHash(l VerifElementLeaf) Hash256 {
+	return elementLeaf{l.SE, l.ElementHash}.hash()
+}
